@@ -624,6 +624,10 @@ pub fn reduce_table(ops: Ops, env: &mut Uiua) -> UiuaResult {
                     return generic_reduce_table(f, g, Value::Num(xs), Value::Num(ys), env);
                 }
             }
+            // With no rows to reduce, the result is the identity that reduce gives for the table
+            (_, xs @ Value::Complex(_), ys @ Value::Complex(_)) if xs.row_count() == 0 => {
+                generic_reduce_table(f, g, xs, ys, env)?
+            }
             (Some(((fp, f_flip), (gp, g_flip))), Value::Complex(xs), Value::Complex(ys)) => {
                 if let Err((xs, ys)) = reduce_coms(fp, gp, f_flip, g_flip, xs, ys, env)? {
                     return generic_reduce_table(f, g, Value::Complex(xs), Value::Complex(ys), env);
@@ -860,7 +864,7 @@ where
 }
 
 macro_rules! reduce_table_math {
-    ($fname:ident, $ty:ty, $f:ident) => {
+    ($fname:ident, $ty:ty, $f:ident, $mk_iden:expr) => {
         #[allow(clippy::result_large_err)]
         fn $fname(
             f_prim: Primitive,
@@ -878,37 +882,37 @@ macro_rules! reduce_table_math {
             macro_rules! all_gs {
                 ($ff:expr, $ff_complex:expr, $iden:expr, $ciden:expr) => {
                     match g_prim {
-                        Primitive::Add => env.push(frtl(xs, ys, $ff, add::$f, $iden.into(), fill)),
-                        Primitive::Sub => env.push(frtl(xs, ys, $ff, sub::$f, $iden.into(), fill)),
-                        Primitive::Mul => env.push(frtl(xs, ys, $ff, mul::$f, $iden.into(), fill)),
-                        Primitive::Div => env.push(frtl(xs, ys, $ff, div::$f, $iden.into(), fill)),
+                        Primitive::Add => env.push(frtl(xs, ys, $ff, add::$f, $mk_iden($iden, $ciden), fill)),
+                        Primitive::Sub => env.push(frtl(xs, ys, $ff, sub::$f, $mk_iden($iden, $ciden), fill)),
+                        Primitive::Mul => env.push(frtl(xs, ys, $ff, mul::$f, $mk_iden($iden, $ciden), fill)),
+                        Primitive::Div => env.push(frtl(xs, ys, $ff, div::$f, $mk_iden($iden, $ciden), fill)),
                         Primitive::Modulo => {
-                            env.push(frtl(xs, ys, $ff, modulo::$f, $iden.into(), fill))
+                            env.push(frtl(xs, ys, $ff, modulo::$f, $mk_iden($iden, $ciden), fill))
                         }
                         #[cfg(feature = "opt")]
                         Primitive::Atan => {
-                            env.push(frtl(xs, ys, $ff, atan2::$f, $iden.into(), fill))
+                            env.push(frtl(xs, ys, $ff, atan2::$f, $mk_iden($iden, $ciden), fill))
                         }
                         Primitive::Eq => {
-                            env.push(frtl(xs, ys, $ff, to(is_eq::$f), $iden.into(), fill))
+                            env.push(frtl(xs, ys, $ff, to(is_eq::$f), $mk_iden($iden, $ciden), fill))
                         }
                         Primitive::Ne => {
-                            env.push(frtl(xs, ys, $ff, to(is_ne::$f), $iden.into(), fill))
+                            env.push(frtl(xs, ys, $ff, to(is_ne::$f), $mk_iden($iden, $ciden), fill))
                         }
                         Primitive::Lt => {
-                            env.push(frtl(xs, ys, $ff, to(other_is_lt::$f), $iden.into(), fill))
+                            env.push(frtl(xs, ys, $ff, to(other_is_lt::$f), $mk_iden($iden, $ciden), fill))
                         }
                         Primitive::Gt => {
-                            env.push(frtl(xs, ys, $ff, to(other_is_gt::$f), $iden.into(), fill))
+                            env.push(frtl(xs, ys, $ff, to(other_is_gt::$f), $mk_iden($iden, $ciden), fill))
                         }
                         Primitive::Le => {
-                            env.push(frtl(xs, ys, $ff, to(other_is_le::$f), $iden.into(), fill))
+                            env.push(frtl(xs, ys, $ff, to(other_is_le::$f), $mk_iden($iden, $ciden), fill))
                         }
                         Primitive::Ge => {
-                            env.push(frtl(xs, ys, $ff, to(other_is_ge::$f), $iden.into(), fill))
+                            env.push(frtl(xs, ys, $ff, to(other_is_ge::$f), $mk_iden($iden, $ciden), fill))
                         }
-                        Primitive::Min => env.push(frtl(xs, ys, $ff, min::$f, $iden.into(), fill)),
-                        Primitive::Max => env.push(frtl(xs, ys, $ff, max::$f, $iden.into(), fill)),
+                        Primitive::Min => env.push(frtl(xs, ys, $ff, min::$f, $mk_iden($iden, $ciden), fill)),
+                        Primitive::Max => env.push(frtl(xs, ys, $ff, max::$f, $mk_iden($iden, $ciden), fill)),
                         Primitive::Complex => env.push(frtl(
                             xs,
                             ys,
@@ -918,7 +922,7 @@ macro_rules! reduce_table_math {
                             env.ctx().scalar_fill::<Complex>().ok().map(|fv| fv.value),
                         )),
                         Primitive::Couple | Primitive::Join => {
-                            env.push(frtljc(xs, ys, $ff, $iden.into(), fill))
+                            env.push(frtljc(xs, ys, $ff, $mk_iden($iden, $ciden), fill))
                         }
                         _ => return Ok(Err((xs, ys))),
                     }
@@ -941,8 +945,10 @@ macro_rules! reduce_table_math {
     };
 }
 
-reduce_table_math!(reduce_table_nums, f64, num_num);
-reduce_table_math!(reduce_coms, Complex, com_x);
+// The identity of a complex reduction has an imaginary part of its own,
+// as complex min and max work on the parts separately
+reduce_table_math!(reduce_table_nums, f64, num_num, |re: f64, _im: f64| re);
+reduce_table_math!(reduce_coms, Complex, com_x, Complex::new);
 
 /// Fast reduce table list
 fn frtl<T, G, F>(
